@@ -66,6 +66,25 @@ def templates():
                 if full is n1 or cfg.ver != "v3":
                     d = agent.reply(cfg, req, [(bytes(content[:cut]), val)])
                     out.append(dict(name="%s-response-name-%d-%d" % (cfgname, full[-2] * 100 + full[-4], cut), ver=cfg.ver, cfg=cfgname, b=list(d), nomutate=True))
+    # Opaque wraps BER (RFC 2578 7.1.9; agents put Float / Double / Integer64 / Unsigned64 / Counter64 there under the extension
+    # tags 9f 78..7b / 9f 76): well-formed replies whose Opaque CONTENTS are nested TLVs with every relation between the inner
+    # declared length and what is really there (the position machine applied one level down); also the same octets as OCTET STRING
+    k = 0
+    for tagb in ([0x9F, 0x78], [0x9F, 0x79], [0x9F, 0x7A], [0x9F, 0x7B], [0x9F, 0x76], [0x9F, 0x00], [0x44], [0x04], [0x02], [0x30], [0x9F]):
+        for true_len in (0, 1, 4, 8):
+            payload = bytes((0x3F + 17 * j) % 256 for j in range(true_len))
+            for lenb in ([true_len], [true_len + 1], [max(0, true_len - 1)], [0x7F], [0x80], [0x81, true_len], [0x81, 0xFF], [0x82, 0, true_len], [0xFF], []):
+                k += 1
+                content = bytes(tagb) + bytes(lenb) + payload
+                for kind in (("opaque",) if k % 3 else ("opaque", "octets")):
+                    add("v2c-%s-nested-%d" % (kind, k), "v2c", [(n1, (kind, content))])
+                    out[-1]["nomutate"] = True
+                if k % 7 == 0:
+                    add("v3-opaque-nested-%d" % k, "v3-md5", [(n1, ("opaque", content)), (n2, ("int", k))])
+                    out[-1]["nomutate"] = True
+                if k % 11 == 0:
+                    add("v1-opaque-nested-%d" % k, "v1", [(n1, ("opaque", content))])
+                    out[-1]["nomutate"] = True
     # large replies: the receive buffer takes 4080 octets although the client announces msgMaxSize 2048
     for cfgname in ("v2c", "v1", "v3-noauth", "v3-md5", "v3-sha1", "v3-md5-des", "v3-sha1-aes"):
         cfg = std[cfgname]
